@@ -165,6 +165,8 @@ class History:
         group_scope: dict[int, int] = {}
         base_scope: dict[int, int] = {}
         tainted_groups: set[int] = set()
+        vis_acc: dict[int, set] = {}              # cancelled scopes visible from t's current scope at any step since t last ran
+        self._vis_acc = vis_acc
         start_joining: set[int] = set()         # starters that were interrupted and now wait for the child to end
         native_out: dict[int, int] = {}          # task -> native cancel requests not yet uncancelled by the program
         self._tainted = tainted_groups
@@ -327,6 +329,15 @@ class History:
                     if got != exp:
                         self.v("C06", f"step {i}: current_effective_deadline() = {got} but the reference says {exp}")
 
+            ran = a if (c < 30 or c in (S.RUNSTEP, S.RUNWAKE)) else None
+            for tt, tk in snap["tasks"].items():
+                if tk["state"] >= 3:
+                    continue
+                vis = set(ref_visible_cancelled_set(snap, tk["cur"])) if tk["cur"] else set()
+                if tt == ran:
+                    vis_acc[tt] = vis
+                else:
+                    vis_acc.setdefault(tt, set()).update(vis)
             if self.real:
                 self.check_not_stuck(prev, snap, op, i)
             else:
@@ -426,7 +437,9 @@ class History:
     # ---------- C04 ----------
     def check_containment(self, t, origins, prev, i, shield_events):
         cur = prev["tasks"][t]["cur"]
-        visible = ref_visible_cancelled_set(prev, cur)
+        # a request cannot be retracted: the origin must have been visible at some point since the task last ran
+        # (another task may have raised a shield in between)
+        visible = sorted(set(ref_visible_cancelled_set(prev, cur)) | self._vis_acc.get(t, set()))
         for o in origins:
             if o <= 0 or o not in prev["scopes"]:
                 continue
